@@ -407,12 +407,13 @@ def op_allscopes(seval, args):
     assert args, 'all-scopes: exactly one argument required'
     assert isinstance(args[0], WList), 'all-scopes: argument must be a valid expression'
     res = []
-    prev_scope = seval.global_environment.read('CS')
+    prev_scope = seval.scope
     for scope in seval.traces.scopes: # pylint: disable=E1101
         seval.scope = scope
         seval.global_environment.write('CS', scope)
         res.append(seval.eval(args[0]))
 
+    seval.scope = prev_scope
     seval.global_environment.write('CS', prev_scope)
     return res
 
